@@ -72,8 +72,17 @@ def confirm(name):
 
 
 def detect(name, tier="quick", pids=None):
+    """SEED_REPO=<scratch worktree of /repo>: apply the change there and run the checks with FV_REPO pointing at it
+    (used while other processes read /repo); default: apply to /repo itself and undo afterwards"""
+    global REPO
     d, meta = load(name)
     pids = pids or [meta["property"]]
+    target = os.environ.get("SEED_REPO")
+    if target:
+        if not os.path.isdir(target):
+            sh(["git", "-C", "/repo", "worktree", "add", "-q", "--detach", target, "HEAD"])
+        REPO = target
+        os.environ["FV_REPO"] = target
     rc, out = sh(["git", "-C", REPO, "status", "--porcelain"])
     if out.strip():
         print("refusing: /repo has uncommitted changes")
@@ -105,6 +114,8 @@ def detect(name, tier="quick", pids=None):
         sh(["git", "-C", REPO, "checkout", "--", "."])
         sh(["git", "-C", REPO, "reset", "-q"])
         sh(["git", "-C", REPO, "checkout", "--", "."])
+        # regenerate the Gen files from the unchanged tree
+        sh([PY, os.path.join(V, "fv", "tracer.py"), os.path.join(V, "lean", "FlVerif", "Gen"), os.path.join(V, "work", "tracer_status.json")])
     save(d, meta)
 
 
